@@ -54,9 +54,11 @@ def handleExpr (astS : String) : String :=
   | none => "model-cannot-read-ast"
   | some e0 =>
     let e := eraseNode e0
-    let ts := toks e
-    let parsed := match parseAt (10 * ts.length + 40) 1 ts with
-      | some (e', []) => sx e'
+    -- the statement `g = <e>`, as the harness writes it
+    let g : Node := .idx (.id "g" dp .unk) (.exprs .nil) .unk
+    let ts := toksAssign .assign g e
+    let parsed := match parseExprStmt (10 * ts.length + 40) ts with
+      | some (.bin .assign _ e' _, []) => sx e'
       | _ => "PARSE-ERROR"
     " ".intercalate (ts.map tokName) ++ " | " ++ parsed ++ " | " ++ (if wf e then "wf" else "outside-theorem")
 
